@@ -15,6 +15,7 @@ inlined are dropped from the function list; one that is still referenced (fn poi
 stays and is then judged by the who-may-call / who-may-write rules like any other function.
 Nothing is inlined when the reference list is absent."""
 import copy
+import re
 import json
 import os
 
@@ -63,9 +64,42 @@ def _fn_refs(x):
                 yield from _fn_refs(v)
 
 
+def _subst_generics(obj, pairs):
+    """replace the callee's generic parameter names by the call's generic arguments in every string of obj"""
+    if isinstance(obj, str):
+        for rx, to in pairs:
+            if rx.search(obj):
+                obj = rx.sub(lambda m: to, obj)
+        return obj
+    if isinstance(obj, list):
+        return [_subst_generics(x, pairs) for x in obj]
+    if isinstance(obj, dict):
+        return {k: _subst_generics(v, pairs) for k, v in obj.items()}
+    return obj
+
+
+def _generic_pairs(callee, t):
+    gen, ga = callee.get('generics') or [], t.get('gargs') or []
+    if not gen or len(gen) != len(ga):
+        return []
+    out = []
+    for g, a in zip(gen, ga):
+        if g == a or g.startswith("'"):
+            continue
+        if re.match(r'^\w+$', g):
+            out.append((re.compile(r'(?<![\w:])%s(?!\w)' % re.escape(g)), a))
+        else:
+            out.append((re.compile(re.escape(g)), a))
+    return out
+
+
 def _inline_call(caller, bi, callee):
     blk = caller['blocks'][bi]
     t = blk['term']
+    pairs = _generic_pairs(callee, t)
+    if pairs:
+        callee = dict(callee, locals=_subst_generics(callee['locals'], pairs), blocks=_subst_generics(callee['blocks'], pairs),
+                      debug=_subst_generics(callee.get('debug', []), pairs))
     off = len(caller['locals'])
     boff = len(caller['blocks'])
     caller['locals'].extend(copy.deepcopy(callee['locals']))
@@ -91,11 +125,121 @@ def _inline_call(caller, bi, callee):
         caller.setdefault('debug', []).append(nd)
 
 
+def _place_nodes(obj):
+    if isinstance(obj, dict):
+        if 'l' in obj and isinstance(obj.get('p'), list):
+            yield obj
+        for v in obj.values():
+            yield from _place_nodes(v)
+    elif isinstance(obj, list):
+        for v in obj:
+            yield from _place_nodes(v)
+
+
+def elim_inlined_refs(f):
+    """after a helper taking `&mut x` / `&x` was inlined, its parameter is a local holding that reference and the body
+    works on `*param`.  Where such a reference local is only dereferenced (or handed to mem::replace, which is
+    written out), `*param` is replaced by the place itself, so `take(&mut left, n)` inlined reads like code
+    working on `left`."""
+    def defs_of(l):
+        ds = [s2 for b2 in f['blocks'] for s2 in b2['stmts'] if s2['k'] == 'assign' and s2['lhs']['l'] == l and not s2['lhs']['p']]
+        cs = [b2 for b2 in f['blocks'] if b2['term']['k'] == 'call' and b2['term']['dest']['l'] == l]
+        return ds, cs
+
+    def resolve(l, depth=0):
+        """the place a reference local points to, when that is fixed by its single definition"""
+        if depth > 6:
+            return None
+        ds, cs = defs_of(l)
+        if len(ds) != 1 or cs:
+            return None
+        rv = ds[0]['rv']
+        if rv['k'] == 'use' and 'l' in rv['op'] and not rv['op']['p']:
+            return resolve(rv['op']['l'], depth + 1)
+        if rv['k'] != 'ref':
+            return None
+        P = rv['place']
+        if any(x['k'] in ('index', 'constindex', 'subslice') for x in P['p']):
+            return None
+        if P['p'] and P['p'][0]['k'] == 'deref':
+            T0 = resolve(P['l'], depth + 1)
+            if T0 is None:
+                return None
+            return {'l': T0['l'], 'p': list(T0['p']) + P['p'][1:], 'ty': P.get('ty', '')}
+        if any(x['k'] == 'deref' for x in P['p']):
+            return None
+        # a whole local, or fields of one: the same place wherever the reference is used
+        return {'l': P['l'], 'p': list(P['p']), 'ty': P.get('ty', '')}
+
+    n_done = 0
+    done = set()
+    changed = True
+    while changed:
+        changed = False
+        cands = []
+        for b in f['blocks']:
+            for st in b['stmts']:
+                if st['k'] == 'assign' and not st['lhs']['p'] and (st.get('inlined_arg') or b.get('inlined_from')) and st['lhs']['l'] not in done \
+                        and (f['locals'][st['lhs']['l']]['ty'] or '').startswith('&'):
+                    cands.append((st['lhs']['l'], st))
+        for p_, st in cands:
+            T = resolve(p_)
+            if T is None or T['l'] == p_:
+                continue
+            ok = True
+            repl = []
+            uses = 0
+            for b2 in f['blocks']:
+                for s2 in b2['stmts']:
+                    if s2 is st:
+                        continue
+                    for nd in _place_nodes(s2):
+                        if nd['l'] == p_:
+                            uses += 1
+                            if not (nd['p'] and nd['p'][0]['k'] == 'deref'):
+                                ok = False
+                t2 = b2['term']
+                for key, v in t2.items():
+                    for nd in _place_nodes(v):
+                        if nd['l'] == p_:
+                            uses += 1
+                            if not (nd['p'] and nd['p'][0]['k'] == 'deref'):
+                                if t2['k'] == 'call' and (t2.get('callee') or '') == 'std::mem::replace' and len(t2['args']) == 2 and nd is t2['args'][0] and t2.get('target') is not None:
+                                    repl.append(b2)
+                                else:
+                                    ok = False
+            if not ok or not uses:
+                continue
+            for b2 in repl:
+                t2 = b2['term']
+                tplace = {'l': T['l'], 'p': list(T['p']), 'ty': T.get('ty', '')}
+                b2['stmts'].append({'k': 'assign', 'lhs': t2['dest'], 'rv': {'k': 'use', 'op': dict(tplace, k='copy')}, 'span': t2.get('span'), 'text': 'mem::replace: old value'})
+                b2['stmts'].append({'k': 'assign', 'lhs': tplace, 'rv': {'k': 'use', 'op': t2['args'][1]}, 'span': t2.get('span'), 'text': 'mem::replace: new value'})
+                b2['term'] = {'k': 'goto', 'target': t2['target'], 'span': t2.get('span')}
+            for b2 in f['blocks']:
+                for s2 in b2['stmts']:
+                    if s2 is st:
+                        continue
+                    for nd in _place_nodes(s2):
+                        if nd['l'] == p_ and nd['p'] and nd['p'][0]['k'] == 'deref':
+                            nd['l'] = T['l']
+                            nd['p'] = list(T['p']) + nd['p'][1:]
+                for key, v in b2['term'].items():
+                    for nd in _place_nodes(v):
+                        if nd['l'] == p_ and nd['p'] and nd['p'][0]['k'] == 'deref':
+                            nd['l'] = T['l']
+                            nd['p'] = list(T['p']) + nd['p'][1:]
+            done.add(p_)
+            n_done += 1
+            changed = True
+    return n_done
+
+
 def normalise(j):
     """transform the fact JSON in place; returns a list of notes"""
     notes = []
     if not os.path.exists(KNOWN):
-        return desugar_combinators(j)
+        return desugar_combinators(j) + inline_local_closure_calls(j)
     known = json.load(open(KNOWN))
     kpaths = {k['path']: k for k in known}
     fns = j['functions']
@@ -139,7 +283,7 @@ def normalise(j):
     new = [f for f in new if 'renamed_from' not in f]
     newp = {f['path']: f for f in new}
     if not newp:
-        return notes + desugar_combinators(j)
+        return notes + desugar_combinators(j) + inline_local_closure_calls(j)
     # recursion among new helpers: never inline a helper that can reach itself
     calls = {p: {b['term'].get('resolved') or b['term'].get('callee') for b in f['blocks'] if b['term']['k'] == 'call'} & set(newp) for p, f in newp.items()}
 
@@ -183,11 +327,14 @@ def normalise(j):
                         if ref in newp:
                             still.add(ref)
     drop = {p for p in inlinable if p in count and p not in still}
+    ne = sum(elim_inlined_refs(f) for f in fns) if count else 0
+    if ne:
+        notes.append('%d by-reference parameter(s) of inlined helpers replaced by the place they refer to' % ne)
     for p in sorted(count):
         notes.append('new helper %s inlined at %d call site(s)%s' % (p, count[p], '' if p in drop else ' (still referenced elsewhere: kept as a function too)'))
     if drop:
         j['functions'] = [f for f in fns if f['path'] not in drop]
-    return notes + desugar_combinators(j)
+    return notes + desugar_combinators(j) + inline_local_closure_calls(j)
 
 
 # ---------------------------------------------------------------------------
@@ -261,6 +408,48 @@ def _agg(adt, variant, vidx, ops, full=''):
     return {'k': 'agg', 'ak': 'adt', 'adt': adt, 'adt_full': full or adt, 'variant': variant, 'vidx': vidx, 'fields': ['0'] if ops else [], 'ops': ops}
 
 
+def _desugar_take_if(f, blk, t, fns_by_path):
+    """`opt.take_if(|v| pred)`: when *opt is Some and pred holds the value is taken (Option::take), otherwise None"""
+    recv, clo_op = t['args']
+    got = _closure_of(f, clo_op, fns_by_path)
+    if got is None or 'l' not in recv or recv['p']:
+        return False
+    clo_local, g = got
+    if g['arg_count'] != 2 or len(g['blocks']) > MAX_BLOCKS:
+        return False
+    span = t.get('span')
+    dest, target = t['dest'], t['target']
+    d_ty = dest.get('ty', '')
+    r_local = recv['l']
+    opt_ty = f['locals'][r_local]['ty'].lstrip('&').replace('mut ', '', 1)
+    env_ty = g['locals'][1]['ty']
+    p_ty = g['locals'][2]['ty']
+    d_local = _new_local(f, 'isize')
+    blk['stmts'].append(_assign(_pl(d_local, 'isize'), {'k': 'discr', 'place': _pl(r_local, opt_ty, [{'k': 'deref'}]), 'adt': OPT[0], 'variants': OPT[1]}, span))
+    base = len(f['blocks'])
+    some_bb, none_bb, test_bb, take_bb = base, base + 1, base + 2, base + 3
+    res_local = _new_local(f, 'bool')
+    arg_local = _new_local(f, p_ty)
+    some = {'cleanup': False, 'stmts': [_assign(_pl(arg_local, p_ty), {'k': 'ref', 'mut': True, 'place': _pl(r_local, '', [{'k': 'deref'}, {'k': 'downcast', 'variant': 'Some', 'vidx': 1}, {'k': 'field', 'i': 0, 'ty': '', 'name': '0'}])}, span)], 'term': None, 'desugared': 'take_if'}
+    if env_ty.startswith('&'):
+        e_local = _new_local(f, env_ty)
+        some['stmts'].append(_assign(_pl(e_local, env_ty), {'k': 'ref', 'mut': env_ty.startswith('&mut'), 'place': _pl(clo_local, f['locals'][clo_local]['ty'])}, span))
+        env_op = _use(e_local, env_ty)
+    else:
+        env_op = _use(clo_local, f['locals'][clo_local]['ty'])
+    some['term'] = {'k': 'call', 'callee': g['path'], 'resolved': g['path'], 'args': [env_op, _use(arg_local, p_ty)], 'dest': _pl(res_local, 'bool'), 'target': test_bb, 'unwind': None, 'span': span}
+    none = {'cleanup': False, 'stmts': [_assign(dest, _agg(OPT[0], 'None', 0, [], d_ty), span)], 'term': {'k': 'goto', 'target': target, 'span': span}, 'desugared': 'take_if'}
+    test = {'cleanup': False, 'stmts': [], 'term': {'k': 'switch', 'discr': _use(res_local, 'bool', 'copy'), 'discr_ty': 'bool', 'targets': [['0', none_bb]], 'otherwise': take_bb, 'span': span}, 'desugared': 'take_if'}
+    take = {'cleanup': False, 'stmts': [], 'desugared': 'take_if',
+            'term': {'k': 'call', 'callee': 'std::option::Option::<T>::take', 'callee_full': 'std::option::Option::<T>::take', 'resolved': 'std::option::Option::<T>::take',
+                     'args': [recv], 'dest': dest, 'target': target, 'unwind': None, 'span': span, 'gargs': []}}
+    f['blocks'].extend([some, none, test, take])
+    # an empty slot goes to take() as well: taking from None yields None, which is what take_if returns there
+    blk['term'] = {'k': 'switch', 'discr': _use(d_local, 'isize'), 'discr_ty': 'isize', 'targets': [['1', some_bb]], 'otherwise': take_bb, 'span': span}
+    _inline_call(f, some_bb, g)
+    return True
+
+
 def desugar_combinators(j):
     notes = []
     fns_by_path = {}
@@ -274,6 +463,10 @@ def desugar_combinators(j):
             t = blk['term']
             bi += 1
             if t['k'] != 'call' or blk.get('cleanup') or t.get('target') is None or t['dest']['p']:
+                continue
+            if (t.get('callee') or '') == 'std::option::Option::<T>::take_if' and len(t['args']) == 2:
+                if _desugar_take_if(f, blk, t, fns_by_path):
+                    count['take_if'] = count.get('take_if', 0) + 1
                 continue
             spec = COMBINATORS.get(t.get('callee') or '')
             if spec is None:
@@ -383,4 +576,66 @@ def desugar_combinators(j):
             count[t.get('callee')] = count.get(t.get('callee'), 0) + 1
     for c, n in sorted(count.items()):
         notes.append('combinator %s with a closure rewritten as the match it stands for at %d site(s)' % (c.rsplit('::', 1)[-1] if '::' in c else c, n))
+    return notes
+
+
+def _single_def_stmt(f, l):
+    defs = []
+    for b in f['blocks']:
+        for s in b['stmts']:
+            if s['k'] == 'assign' and s['lhs']['l'] == l and not s['lhs']['p']:
+                defs.append(s)
+        t = b['term']
+        if t['k'] == 'call' and t['dest']['l'] == l and not t['dest']['p']:
+            defs.append(t)
+    return defs[0] if len(defs) == 1 else None
+
+
+def inline_local_closure_calls(j):
+    """`let is_full = |x| x >= len; .. is_full(a) ..`: a call of a closure that is a local of the same function
+    (Fn::call / FnMut::call_mut / FnOnce::call_once on it, arguments packed in a tuple) is replaced by the closure body"""
+    notes = []
+    fns_by_path = {}
+    for f in j['functions']:
+        fns_by_path.setdefault(f['path'], f)
+    n = 0
+    for f in j['functions']:
+        bi = 0
+        while bi < len(f['blocks']):
+            blk = f['blocks'][bi]
+            t = blk['term']
+            bi += 1
+            if t['k'] != 'call' or blk.get('cleanup') or t.get('callee') not in ('std::ops::Fn::call', 'std::ops::FnMut::call_mut', 'std::ops::FnOnce::call_once'):
+                continue
+            if len(t['args']) != 2 or 'l' not in t['args'][0] or t['args'][0]['p'] or 'l' not in t['args'][1] or t['args'][1]['p']:
+                continue
+            # receiver: the closure local itself (call_once) or a reference to it
+            recv = t['args'][0]
+            clo = _closure_of(f, recv, fns_by_path)
+            env_is_ref = False
+            if clo is None:
+                d = _single_def_stmt(f, recv['l'])
+                if d is not None and d.get('k') == 'assign' and d['rv']['k'] == 'ref' and 'l' in d['rv']['place'] and not d['rv']['place']['p']:
+                    clo = _closure_of(f, {'l': d['rv']['place']['l'], 'p': []}, fns_by_path)
+                    env_is_ref = True
+            if clo is None:
+                continue
+            clo_local, g = clo
+            env_ty = g['locals'][1]['ty'] if len(g['locals']) > 1 else ''
+            if env_ty.startswith('&') != env_is_ref or len(g['blocks']) > MAX_BLOCKS:
+                continue
+            # arguments: fields of the tuple local
+            tup = _single_def_stmt(f, t['args'][1]['l'])
+            if tup is None or tup.get('k') != 'assign' or tup['rv']['k'] != 'agg' or tup['rv'].get('ak') != 'tuple' or len(tup['rv']['ops']) != g['arg_count'] - 1:
+                continue
+            new_args = [recv] + [dict(o) for o in tup['rv']['ops']]
+            t2 = dict(t)
+            t2['args'] = new_args
+            t2['callee'] = g['path']
+            t2['resolved'] = g['path']
+            blk['term'] = t2
+            _inline_call(f, bi - 1, g)
+            n += 1
+    if n:
+        notes.append('%d call(s) of a closure that is a local of the calling function replaced by the closure body' % n)
     return notes
